@@ -6,8 +6,9 @@ class Info(object):
     def __init__(self, spec):
         self.spec = spec
         self.key = hash(repr(spec))
-        self.tasks = {ts["name"]: ts for ts in spec["tasks"]}
-        self.tnames = [ts["name"] for ts in spec["tasks"]]
+        self.tasks = {(ts.get("id") or ts["name"]): ts for ts in spec["tasks"]}
+        self.tnames = [(ts.get("id") or ts["name"]) for ts in spec["tasks"]]  # task IDs (names may repeat)
+        self.tname_of = {(ts.get("id") or ts["name"]): ts["name"] for ts in spec["tasks"]}
         self.preds = {n: [] for n in self.tnames}  # name -> [(pred name, kind)]
         self.succs = {n: [] for n in self.tnames}
         for i, j, k in spec.get("links", []):
@@ -72,10 +73,11 @@ class Info(object):
 
     # ---- eligibility (statement of C04), from the spec and the absence answers only
     def wskill(self, wn, tn):
-        return self.workers[wn].get("skills", {}).get(tn, 0.0)
+        # skill maps are keyed by the task's *name*
+        return self.workers[wn].get("skills", {}).get(self.tname_of[tn], 0.0)
 
     def fskill(self, fn, tn):
-        return self.facilities[fn].get("skills", {}).get(tn, 0.0)
+        return self.facilities[fn].get("skills", {}).get(self.tname_of[tn], 0.0)
 
     def worker_static_ok(self, wn, tn):
         """positive skill, team targets the task, fixed-ID list admits the worker."""
